@@ -140,6 +140,37 @@ structure Inv (s : State) : Prop where
 current code (`PvProofs.C14.refInv_reachable`). -/
 def FullInv (s : State) : Prop := Inv B s ∧ SessionsHaveScope s
 
+/-! ### specifications: referential integrity
+
+What the write-time checks (`ValidateWriteScopeSpecification`, `WriteRecordSpecification`,
+`ValidateWriteScope`, …) and the removal guards (`isScopeSpecUsed`, `isContractSpecUsed`) keep
+true of the stored content — and the two clauses they do NOT keep (`isRecordSpecUsed` is a
+`// TODO` that answers false; `isContractSpecUsed` does not look at sessions, `// TODO`). -/
+
+/-- every record specification belongs to an existing contract specification -/
+def RecSpecsHaveCSpec (s : State) : Prop := ∀ rs ∈ s.recordSpecs, ∃ c ∈ s.contractSpecs, c.id = rs.id.cspec
+/-- every contract specification a stored scope specification lists exists -/
+def ScopeSpecCSpecsExist (s : State) : Prop :=
+  ∀ sp ∈ s.scopeSpecs, ∀ c ∈ sp.cspecs, ∃ cs ∈ s.contractSpecs, cs.id = c
+/-- every stored scope's specification exists -/
+def ScopesHaveSpec (s : State) : Prop := ∀ sc ∈ s.scopes, ∃ sp ∈ s.scopeSpecs, sp.id = sc.spec
+/-- NOT kept by the code: every stored session's contract specification exists -/
+def SessionsHaveCSpec (s : State) : Prop := ∀ x ∈ s.sessions, ∃ c ∈ s.contractSpecs, c.id = x.spec
+/-- NOT kept by the code: every stored record's record specification exists -/
+def RecordsHaveRecSpec (s : State) : Prop := ∀ r ∈ s.records, ∃ rs ∈ s.recordSpecs, rs.id = r.spec
+
+instance (s : State) : Decidable (RecSpecsHaveCSpec s) := by unfold RecSpecsHaveCSpec; infer_instance
+instance (s : State) : Decidable (ScopeSpecCSpecsExist s) := by unfold ScopeSpecCSpecsExist; infer_instance
+instance (s : State) : Decidable (ScopesHaveSpec s) := by unfold ScopesHaveSpec; infer_instance
+instance (s : State) : Decidable (SessionsHaveCSpec s) := by unfold SessionsHaveCSpec; infer_instance
+instance (s : State) : Decidable (RecordsHaveRecSpec s) := by unfold RecordsHaveRecSpec; infer_instance
+
+/-- the specification-integrity clauses the code guarantees (`PvProofs.C14.specInv_reachable`) -/
+structure SpecInv (s : State) : Prop where
+  recSpecCSpec : RecSpecsHaveCSpec s
+  scopeSpecCSpecs : ScopeSpecCSpecsExist s
+  scopeSpec : ScopesHaveSpec s
+
 /-! ### "deleting a scope removes all of its sessions, records, lookups and net asset values" -/
 
 /-- nothing about scope `id` is left, sessions aside -/
